@@ -10,6 +10,7 @@ import (
 	"runtime"
 	"strings"
 	"sync/atomic"
+	"syscall"
 	"time"
 
 	"github.com/bnb-chain/tss-lib/v2/common"
@@ -168,6 +169,7 @@ type spResult struct {
 // goroutine dump shows the permanent state described in the rule (dump returned as witness).
 func callSafePrimes(ctx context.Context, bits, np, conc int, rd io.Reader, wall time.Duration) (res spResult, returned bool, deadlock bool, dump string) {
 	ch := make(chan spResult, 1)
+	cpu0 := processCPU()
 	go func() {
 		s, e := common.GetRandomSafePrimesConcurrent(ctx, bits, np, conc, rd)
 		ch <- spResult{s, e}
@@ -177,6 +179,19 @@ func callSafePrimes(ctx context.Context, bits, np, conc int, rd io.Reader, wall 
 		return res, true, false, ""
 	case <-time.After(wall):
 		dump = allStacks()
+		// computing without end is told apart from a loaded machine by the CPU time the process consumed during the call:
+		// a pair of up to 64 bits costs milliseconds, so tens of CPU-seconds with the generators still running is a verdict
+		if spent := processCPU() - cpu0; bits <= 64 && spent > 20*time.Second {
+			running := 0
+			for _, g := range goroutinesWith(dump, "runGenPrimeRoutine") {
+				if h := strings.SplitN(g, "\n", 2)[0]; strings.Contains(h, "running") || strings.Contains(h, "runnable") {
+					running++
+				}
+			}
+			if running > 0 {
+				return res, false, false, fmt.Sprintf("SPIN cpu=%s running_generators=%d\n%s", spent.Round(time.Second), running, dump)
+			}
+		}
 		callers := goroutinesWith(dump, "GetRandomSafePrimesConcurrent")
 		parkedCaller := false
 		for _, g := range callers {
@@ -245,6 +260,9 @@ func c19Run(c core.Case, env *core.Env) core.Result {
 				r.Recycle = true
 				if dl {
 					r.Fail("deadlock:GetRandomSafePrimesConcurrent", "call %d/%d (bits=%d conc=%d numPrimes=%d) never returns: the caller is parked in WaitGroup.Wait and a generator goroutine is parked in `chan send` on primeCh, whose only receiver has returned", i, calls, bits, conc, np)
+					r.Witness = dump
+				} else if strings.HasPrefix(dump, "SPIN ") {
+					r.Fail("no-return:GetRandomSafePrimesConcurrent:spinning", "call %d/%d (bits=%d conc=%d numPrimes=%d) has not returned after %s and the generator goroutines are still computing (%s); a pair of this size takes milliseconds", i, calls, bits, conc, np, wallFor(bits), strings.SplitN(dump, "\n", 2)[0])
 					r.Witness = dump
 				} else {
 					r.Inconcl("call %d did not return within %s but the dump does not show the deadlock pattern", i, wallFor(bits))
@@ -691,4 +709,13 @@ func c19NTilde(r *core.Result, env *core.Env) {
 		r.Fail("generate-ntilde-nil", "GenerateNTildei accepted nil")
 	}
 	r.NonTrivial = true
+}
+
+// processCPU is the user+system CPU time this process has consumed so far.
+func processCPU() time.Duration {
+	var ru syscall.Rusage
+	if err := syscall.Getrusage(syscall.RUSAGE_SELF, &ru); err != nil {
+		return 0
+	}
+	return time.Duration(ru.Utime.Nano() + ru.Stime.Nano())
 }
